@@ -206,12 +206,16 @@ class RtdcStub:
     def __init__(self, world, cfg):
         self.w = world
         self.features_scalar = FEATS + PFEATS
+        # everything but the first feature is ancillary and not computed yet
+        self.features_loaded = FEATS[:1]
         self.config = TopCfg(filtering=cfg)
 
     def __len__(self):
         return self.w.N
 
     def __getitem__(self, feat):
+        if feat not in self.features_loaded:    # computed once, then cached
+            self.features_loaded = self.features_loaded + [feat]
         return SArr(self.w.data[feat], float)
 
 
@@ -228,6 +232,8 @@ def run_step(eng, p):
     if not p["fresh"]:
         filt._old_config = w.cfg(w.old)
         for f, cached in zip(FEATS, p["box_cached"]):
+            if cached and f not in ds.features_loaded:
+                ds.features_loaded = ds.features_loaded + [f]
             if cached:
                 filt._box_filters[f] = SArr(
                     [SBool(w.spec_box_feat(w.old, f, i)) for i in range(N)],
@@ -447,15 +453,22 @@ def _fv(vals, name):
     return float(vals.get(name + ".v", 0))
 
 
+_RN = {}      # replay: harness feature name -> name used in the real dataset
+
+
+def rn(f):
+    return _RN.get(f, f)
+
+
 def _apply_settings(ds, p, vals, tag, has, polys, pfs):
     cfg = ds.config["filtering"]
     for f, h in zip(FEATS, has):
         if h:
-            cfg[f + " min"] = float(vals.get("%s_%s_min" % (tag, f), 0))
-            cfg[f + " max"] = float(vals.get("%s_%s_max" % (tag, f), 0))
+            cfg[rn(f) + " min"] = float(vals.get("%s_%s_min" % (tag, f), 0))
+            cfg[rn(f) + " max"] = float(vals.get("%s_%s_max" % (tag, f), 0))
         else:
-            cfg.pop(f + " min", None)
-            cfg.pop(f + " max", None)
+            cfg.pop(rn(f) + " min", None)
+            cfg.pop(rn(f) + " max", None)
     cfg["enable filters"] = bool(vals.get(tag + "_enable", False))
     cfg["remove invalid events"] = bool(vals.get(tag + "_remove_invalid",
                                                  False))
@@ -512,13 +525,30 @@ def replay_pfhash(p, vals):
 
 
 def replay(case, params, v):
+    """replay on an in-memory dataset; when that does not reproduce, once
+    more with the second feature provided lazily (a plugin feature that is
+    available but not computed yet, as ancillary features are)"""
+    if params.get("kind") == "pfhash":
+        return replay_pfhash(params, v.get("values") or {})
+    r = _replay(params, v, lazy=False)
+    if not r["reproduced"]:
+        r2 = _replay(params, v, lazy=True)
+        if r2["reproduced"]:
+            r2["detail"] += " [%s is a plugin feature not computed before " \
+                "the filter is applied]" % FEATS[1]
+            return r2
+    return r
+
+
+def _replay(params, v, lazy):
     import dclab
     from dclab.polygon_filter import PolygonFilter
+    from dclab.rtdc_dataset.feat_anc_plugin import plugin_feature as PF
     vals = v.get("values") or {}
     p = params
-    if p.get("kind") == "pfhash":
-        return replay_pfhash(p, vals)
     N = p["N"]
+    _RN.clear()
+    plug = None
     data = {f: np.array([_fv(vals, "%s%d" % (f, i)) for i in range(N)])
             for f in FEATS}
     for f in PFEATS:
@@ -536,7 +566,17 @@ def replay(case, params, v):
     fails = []
     with quiet():
         try:
-            ds = dclab.new_dataset(data)
+            if lazy:
+                lname = "verif_c03_lazy"
+                _RN[FEATS[1]] = lname
+                lvals = data[FEATS[1]]
+                plug = PF.PlugInFeature(lname, {
+                    "method": lambda ds_: {lname: lvals.copy()},
+                    "feature names": [lname], "scalar feature": [True]})
+                ds = dclab.new_dataset({k: x for k, x in data.items()
+                                        if k != FEATS[1]})
+            else:
+                ds = dclab.new_dataset(data)
             pfs = {}
             for pid in allp:
                 inside0 = [i for i in range(N) if pbit(pid, 0, i)]
@@ -570,9 +610,9 @@ def replay(case, params, v):
                     cfg["polygon filters"] = []
                     for f in FEATS:   # neutralise the other ranges
                         if "[%s]" % f not in str(v.get("what")) and \
-                                f + " min" in cfg:
-                            cfg[f + " min"] = 0.0
-                            cfg[f + " max"] = 0.0
+                                rn(f) + " min" in cfg:
+                            cfg[rn(f) + " min"] = 0.0
+                            cfg[rn(f) + " max"] = 0.0
                     ds.filter.manual[:] = True
                     manual = np.ones(N, dtype=bool)
                     p = dict(p, poly_cur=[])
@@ -586,8 +626,8 @@ def replay(case, params, v):
                 if tag == "pre":
                     for f, h in zip(FEATS, has):
                         if h:
-                            ds.config["filtering"][f + " min"] = 0.0
-                            ds.config["filtering"][f + " max"] = 1.0
+                            ds.config["filtering"][rn(f) + " min"] = 0.0
+                            ds.config["filtering"][rn(f) + " max"] = 1.0
                 ds.apply_filter()
             got = np.array(ds.filter.all, dtype=bool)
             cfg = ds.config["filtering"]
@@ -595,7 +635,7 @@ def replay(case, params, v):
             exp = np.ones(N, dtype=bool)
             for f, h in zip(FEATS, p["has_cur"]):
                 if h:
-                    a, b = cfg[f + " min"], cfg[f + " max"]
+                    a, b = cfg[rn(f) + " min"], cfg[rn(f) + " max"]
                     if a != b:
                         lo, hi = min(a, b), max(a, b)
                         d = data[f]
@@ -635,6 +675,9 @@ def replay(case, params, v):
                     PolygonFilter.remove(pf.unique_id)
                 except Exception:
                     pass
+            if plug is not None:
+                PF.remove_plugin_feature(plug)
+            _RN.clear()
     if not fails:
         return {"reproduced": False, "key": "not-reproduced",
                 "detail": "history passes on the real code: %r %r" % (
